@@ -127,20 +127,36 @@ def conflict_suffix(cx):
     ok = bool(rets)
     nz = 0
     # iterator form: ents.iter().find(|e| !match_term(e.index, e.term)) -> Some(e) => e.index, None => 0
-    finds = {x for _, v, _ in rets for x in walk(v) if x[0] == "call" and x[1].endswith("::find")} | {l[1] for lits, _, _ in rets for l in lits if l[0] == "in" and l[1][0] == "call" and l[1][1].endswith("::find")}
+    def _search(x):
+        """find(|e| !match) / position(|e| !match) / ents.get(take_while(|e| match).count()): (closure, negated?)"""
+        if x[0] != "call":
+            return None
+        if x[1].endswith("::find") or x[1].endswith("::position"):
+            cl = [a for a in x[2] if a[0] == "closure"]
+            return (cl[0], True) if len(cl) == 1 else None
+        if x[1].endswith("]>::get") and len(x[2]) == 2 and x[2][1][0] == "call" and x[2][1][1].endswith("::count"):
+            tw = x[2][1][2][0] if x[2][1][2] else None
+            if tw is not None and tw[0] == "call" and tw[1].endswith("::take_while"):
+                cl = [a for a in tw[2] if a[0] == "closure"]
+                return (cl[0], False) if len(cl) == 1 else None
+        return None
+    finds = {x for _, v, _ in rets for x in walk(v) if _search(x)} | {l[1] for lits, _, _ in rets for l in lits if l[0] == "in" and _search(l[1])}
     if finds:
         from ..idioms import closure_returns
         okf = len(finds) == 1
         for fd in finds:
-            cl = [a for a in fd[2] if a[0] == "closure"]
+            clo, negated = _search(fd)
             okc = False
-            if len(cl) == 1:
-                cr = closure_returns(cx.prog, cl[0][1])
-                if cr and len(cr) == 1 and not cr[0][0]:
-                    r = cr[0][1]
-                    if r[0] == "un" and r[1] == "Not":
-                        m_ = match(call("~RaftLog::match_term", ANY, V("i"), V("t")), r[2])
-                        okc = bool(m_) and is_f(m_["i"], "Entry.index") and is_f(m_["t"], "Entry.term") and m_["i"][1] == m_["t"][1]
+            cr = closure_returns(cx.prog, clo[1])
+            if cr and len(cr) == 1 and not cr[0][0]:
+                r = cr[0][1]
+                if negated and r[0] == "un" and r[1] == "Not":
+                    r = r[2]
+                elif negated:
+                    r = None
+                if r is not None:
+                    m_ = match(call("~RaftLog::match_term", ANY, V("i"), V("t")), r)
+                    okc = bool(m_) and is_f(m_["i"], "Entry.index") and is_f(m_["t"], "Entry.term") and m_["i"][1] == m_["t"][1]
             okf = okf and okc
             for lits, v, _ in rets:
                 some = any(l[0] == "in" and l[1] == fd and l[2] == frozenset(["Some"]) for l in lits)
